@@ -14,9 +14,12 @@ expressions are enumerated; the implementation's d[idx] is compared with
 rsample / to_data_independent_dist / constructors are compared with a dense reference built from
 the model's layout permutation.
 
-Tie T: harness/translators/mtindex_tr.py regenerates the integer arithmetic of __getitem__ /
-_normalize_index / _normalize_slice as Gen/MTIndex_gen.v; the obligations (generated code =
-proved model, for all arguments) are re-proved on every run (see pregen / tie_t)."""
+Tie T: harness/translators/mtindex_tr.py (fail-closed ast translator) regenerates the integer arithmetic of
+__getitem__ (tuple thresholds, layout swap, every branch of the kind chain), _normalize_index, _normalize_slice and the
+aranges of to_data_independent_dist as Gen/MTIndex_gen.v on every run (`pregen`); Proofs/C11_gen.v proves gen_* = the
+proved model for ALL arguments and Props/C11.v restates the index theorems over the regenerated text (c11_gen_*), so a
+semantic change of that arithmetic breaks the build of Props/C11.vo (-> VIOLATION, search escalated to thorough depth),
+while a rewrite outside the translator's subset gives NOTE + thorough correspondence (DESIGN section 5)."""
 import itertools
 import json
 import math
